@@ -597,3 +597,19 @@ pub fn replay(a: &Args) {
         println!("budget {} -> {}", budget, &o.term[..o.term.len().min(300)]);
     }
 }
+
+/// `vm-witness <module.json> <coq name>`: the crate's compile output for a module file as a Coq term of type
+/// `Vm.program`, and what the real VM (fresh, the menu natives of the VM check, generous budget) logged when it ran it.
+/// Used to produce coq/theories/VmUpvalueWitness.v from findings/C06/S-*.json.
+pub fn witness(path: &str, name: &str) {
+    let m: Module = serde_json::from_str(&std::fs::read_to_string(path).unwrap()).unwrap();
+    let prog = compile(m, None).expect("compile");
+    let pr = program_term(&prog);
+    let mut vm = new_vm(GENEROUS);
+    let res = vm.run(&prog);
+    println!("(* {} : Vm::run = {:?} *)", path, res.as_ref().map_err(|e| format!("{:?}", e.payload)));
+    println!("Definition {} : program :=\n  {}.", name, pr.term);
+    println!("Definition {}_log : list (list tval) :=\n  {}.", name, out::list(vm.get_aux().log.iter().cloned()));
+    let (h, d) = cao_lang::verif_hooks::stack_heights(&vm.runtime_data);
+    println!("(* value-stack height {}, call depth {}, objects {} after the run *)", h, d, cao_lang::verif_hooks::object_count(&vm.runtime_data));
+}
